@@ -322,5 +322,6 @@ func main() {
 	// C15 / C17 (extract/compress.go, extract/gates.go, walker extract/mwskel.go): never exit either
 	writeIfChanged(filepath.Join(outDir, "Compress.lean"), genCompress(repoRoot))
 	writeIfChanged(filepath.Join(outDir, "Gates.lean"), genGates(repoRoot))
+	writeIfChanged(filepath.Join(outDir, "Version.lean"), genVersion(repoRoot)) // C13 (extract/version.go): never exits
 	writeIfChanged(filepath.Join(outDir, "ObsApp.lean"), genObsApp(repoRoot)) // C08 app layer (extract/obsapp.go): never exits
 }
